@@ -10,7 +10,10 @@ class SPEC:
     rule = ("engine dec: the same template and data bytes decoded under the three modes, plus (strict mode) the template and data with "
             "the unknown fields cut out. Templates interleave known registry elements with unknown IANA / unknown-enterprise / "
             "known-enterprise-unknown-id elements at every position; unknown lengths 1, 2, 7, 300, 65535 (variable, payloads 0/1/254/255/300 "
-            "bytes) and 0 (rejected). Also: registry dump cross-check - every (enterprise, id) of the three registries x 65536 ids is "
+            "bytes) and 0 (rejected). Sessions are preceded, at random, by another template that gives the same unknown elements other "
+            "lengths, by a known predecessor of the SAME (domain, id), or by a predecessor of the same (domain, id) with the same element ids "
+            "in the same order but other lengths for the unknown ones (a re-definition, not a refresh); the collector is configured for tcp "
+            "or udp (`dec new <mode> udp`). Also: registry dump cross-check - every (enterprise, id) of the three registries x 65536 ids is "
             "looked up on both sides. Non-trivial = at least one unknown element between known ones; distinct by hash.")
     assumptions = ["an empty element name marks an unknown element (the code's convention); the registry has no decodable element with an empty name (tie_no_empty_names)"]
     trusted = []
@@ -76,10 +79,24 @@ def gen_cases(rng, tier):
         if any(layout) and rng.random() < 0.35:
             pred = known if known and rng.random() < 0.5 else [rng.choice(sup) for _ in range(rng.randint(1, 4))]
             pres.append("dec pkt " + W.message(dom, 2, W.template_body(tid, pred)).hex())
+        # (c) the SAME (domain, id) defined before with the same element ids in the same order but OTHER lengths for the
+        #     unknown ones (what an exporter that changes a field from fixed to variable length sends): a re-definition, not
+        #     a refresh - the data that follows is laid out by the new lengths
+        if any(layout) and rng.random() < 0.35:
+            other = []
+            for ie, u in zip(ies, layout):
+                if u:
+                    ln = rng.choice([x for x in (1, 2, 3, 7, 12, 300, 65535) if x != ie.len])
+                    other.append(G.IE(ie.ent, ie.id, 0, ln, ""))
+                else:
+                    other.append(ie)
+            pres.append("dec pkt " + W.message(dom, 2, W.template_body(tid, other)).hex())
+        # the collector is configured for tcp or for udp (templates with a lifetime, refreshed by re-sending them)
+        proto = rng.choice(["", " udp", " tcp"])
         ops = []
         for mode in ("strict", "keep", "drop"):
-            ops += ["dec new " + mode] + pres + ["dec pkt " + tpl.hex(), "dec pkt " + data.hex(), "dec keys"]
-        ops += ["dec new strict", "dec pkt " + tpl_k.hex(), "dec pkt " + data_k.hex()]
+            ops += ["dec new " + mode + proto] + pres + ["dec pkt " + tpl.hex(), "dec pkt " + data.hex(), "dec keys"]
+        ops += ["dec new strict" + proto, "dec pkt " + tpl_k.hex(), "dec pkt " + data_k.hex()]
         inner = any(layout[i] and any(not x for x in layout[:i]) and any(not x for x in layout[i + 1:]) for i in range(k))
         label = "zero-len" if zero else ("all-known" if not any(layout) else ("all-unknown" if all(layout) else "mixed"))
         cases.append(Case(ops, label, inner, True))
